@@ -145,6 +145,26 @@ func (d *Daemon) args() []string {
 // until its Unix control socket greets. It returns an error if the process exits or the
 // socket does not come up within the watchdog.
 func (d *Daemon) Start(env ...string) error {
+	var err error
+	for attempt := 0; attempt < 3; attempt++ {
+		err = d.startOnce(env...)
+		if err == nil || !strings.Contains(err.Error(), "address already in use") {
+			return err
+		}
+		// the port picked earlier was taken by someone else in the meantime: pick again
+		if d.TCPCtl {
+			d.CtlPort = FreePort()
+		}
+		if d.Listen && attempt > 0 {
+			// the backend port is referenced by peers/proxies; change it only as a last resort
+			d.ListenPort = FreePort()
+		}
+		time.Sleep(200 * time.Millisecond)
+	}
+	return err
+}
+
+func (d *Daemon) startOnce(env ...string) error {
 	d.mu.Lock()
 	if d.cmd != nil {
 		d.mu.Unlock()
@@ -192,7 +212,7 @@ func (d *Daemon) Start(env ...string) error {
 	for time.Now().Before(deadline) {
 		select {
 		case <-done:
-			return fmt.Errorf("daemon %s exited during start-up (see %s)", d.ID, out)
+			return fmt.Errorf("daemon %s exited during start-up: %s", d.ID, tailOf(out, 700))
 		default:
 		}
 		c, err := DialUnix(d.Sock(), 2*time.Second)
@@ -202,7 +222,7 @@ func (d *Daemon) Start(env ...string) error {
 		}
 		time.Sleep(50 * time.Millisecond)
 	}
-	return fmt.Errorf("daemon %s: control socket did not come up (see %s)", d.ID, out)
+	return fmt.Errorf("daemon %s: control socket did not come up within 60 s: %s", d.ID, tailOf(out, 700))
 }
 
 // Alive reports whether the process is running.
@@ -320,4 +340,15 @@ func PidAlive(pid int) bool {
 		return false
 	}
 	return s[i+2] != 'Z' && s[i+2] != 'X'
+}
+
+func tailOf(file string, n int) string {
+	b, err := os.ReadFile(file)
+	if err != nil {
+		return ""
+	}
+	if len(b) > n {
+		b = b[len(b)-n:]
+	}
+	return strings.ReplaceAll(string(b), "\n", " | ")
 }
